@@ -51,6 +51,8 @@ class Recon:
         self.events: list[Event] = []
         self.calls: list[tuple] = []        # (call_term, conds, node)
         self.env = None
+        self.return_envs: list[tuple] = []  # (conds, {param: term}) at every return statement
+        self.falls_through = True           # the end of the body is reachable
 
     # ------------------------------------------------------------------ expressions
     def ex(self, n, env):
@@ -245,6 +247,9 @@ class Recon:
             for k, e in enumerate(tgt.elts):
                 if val[0] == 'tuple' and k < len(val[1]):
                     self.assign_target(e, val[1][k], env, conds, node)
+                elif val[0] == 'idx' and not any(isinstance(x, ast.Starred) for x in tgt.elts):
+                    # unpacking an element of an array or list is indexing it: `h, j = rows[i]` is rows[i, 0], rows[i, 1]
+                    self.assign_target(e, mkidx(val, ('const', k)), env, conds, node)
                 else:
                     self.assign_target(e, ('proj', k, val), env, conds, node)
         elif isinstance(tgt, ast.Subscript):
@@ -294,6 +299,8 @@ class Recon:
         # had been written in the else arm
         guards = []
         env.pop('__newguard__', None)
+        env.pop('__newguards__', None)
+        env.pop('__blockguards__', None)
         for s in stmts:
             if env.get('__dead__'):
                 break
@@ -301,6 +308,10 @@ class Recon:
             g = env.pop('__newguard__', None)
             if g is not None:
                 guards.append(g)
+            guards.extend(env.pop('__newguards__', ()))
+        if guards and not env.get('__dead__'):
+            # what is known at the end of a block that was left early on some paths; the enclosing `if` hands it on (see stmt)
+            env['__blockguards__'] = list(guards)
 
     def stmt(self, s, env, conds):
         env['__conds__'] = tuple(conds)
@@ -334,6 +345,7 @@ class Recon:
         elif isinstance(s, ast.Return):
             t = self.ex(s.value, env) if s.value else ('const', None)
             self.events.append(Event('return', conds, (t,), s))
+            self.return_envs.append((list(conds), {p_: env.get(p_) for p_ in self.f.params}))
             env['__dead__'] = 'return'
         elif isinstance(s, ast.Raise):
             self.events.append(Event('raise', conds, (self.ex(s.exc, env) if s.exc else None,), s))
@@ -351,13 +363,26 @@ class Recon:
             if not pol:
                 e1, e2 = e2, e1         # e1 is always the environment of the arm where c holds
             d1, d2 = e1.pop('__dead__', None), e2.pop('__dead__', None)
+            g1, g2 = e1.pop('__blockguards__', []), e2.pop('__blockguards__', [])
             if d1 and d2:
                 env['__dead__'] = d1
                 return
             if d1:
-                env.clear(); env.update(e2); env['__newguard__'] = (c, False); return
+                env.clear(); env.update(e2); env['__newguards__'] = [(c, False)] + g2; return
             if d2:
-                env.clear(); env.update(e1); env['__newguard__'] = (c, True); return
+                env.clear(); env.update(e1); env['__newguards__'] = [(c, True)] + g1; return
+            # an arm that was left early on some of its paths (`if a: if b: break`): what follows runs only where that did not
+            # happen, i.e. under not (a and b) - the same as after the merged form `if a and b: break`
+            new = []
+            for arm_pol, gs in ((True, g1), (False, g2)):
+                if gs:
+                    left = None
+                    for t_, p_ in gs:
+                        lit = mknot(t_) if p_ else t_          # the negation of what is known: this is where the arm was left
+                        left = lit if left is None else mkbool('Or', left, lit)
+                    new.append((mkbool('And', c if arm_pol else mknot(c), left), False))
+            if new:
+                env['__newguards__'] = new
             for k in set(e1) | set(e2):
                 if k.startswith('__'):
                     continue
@@ -513,6 +538,7 @@ class Recon:
         if a.kwarg:
             env[a.kwarg.arg] = ('param', '**' + a.kwarg.arg)
         self.block(self.f.node.body, env, [])
+        self.falls_through = not env.get('__dead__')
         self.env = env
         return self
 
@@ -723,6 +749,33 @@ def mknot(x):
     return ('un', 'Not', x)
 
 
+def is_int_term(t, depth=0):
+    """the term is integer-valued whatever the inputs (lengths, shapes, range variables, integer constants and their sums, differences
+    and products): for such operands `a <= b` is exactly `not a > b` (no NaN)"""
+    if depth > 8 or not isinstance(t, tuple) or not t:
+        return False
+    h = t[0]
+    if h == 'const':
+        return isinstance(t[1], int) and not isinstance(t[1], bool)
+    if h == 'call':
+        return t[1] in ('len', 'int', '.count', '.index')
+    if h == 'proj':
+        return isinstance(t[2], tuple) and t[2][:1] == ('attr',) and t[2][2] == 'shape'
+    if h == 'attr':
+        return t[2] in ('size', 'ndim')
+    if h == 'loopvar':
+        it = t[2]
+        return isinstance(it, tuple) and it[:2] == ('call', 'range')
+    if h == 'bin':
+        return t[1] in ('Add', 'Sub', 'Mult', 'FloorDiv', 'Mod') and is_int_term(t[2], depth + 1) and is_int_term(t[3], depth + 1)
+    if h == 'un':
+        return t[1] == 'USub' and is_int_term(t[2], depth + 1)
+    return False
+
+
+_INT_NEG = {'LtE': 'Gt', 'GtE': 'Lt'}
+
+
 def strip_not(c):
     """(condition, polarity): `if not c: A else: B` is read as `if c: B else: A`"""
     pol = True
@@ -732,6 +785,9 @@ def strip_not(c):
     if c[0] == 'cmp' and c[1] in ('NotEq', 'NotIn', 'IsNot'):
         # decisions are kept in positive form: `if a != b: X else: Y` is `if a == b: Y else: X`
         c, pol = ('cmp', _CMP_NEG[c[1]], c[2], c[3]), not pol
+    elif c[0] == 'cmp' and c[1] in _INT_NEG and is_int_term(c[2]) and is_int_term(c[3]):
+        # integer operands: `if n <= k: X else: Y` is `if n > k: Y else: X`
+        c, pol = mkcmp(_INT_NEG[c[1]], c[2], c[3]), not pol
     return c, pol
 
 
@@ -739,6 +795,8 @@ def positive(c, pol):
     """(condition, polarity) with !=, not in, is not rewritten to their positive form"""
     if isinstance(c, tuple) and c and c[0] == 'cmp' and c[1] in ('NotEq', 'NotIn', 'IsNot'):
         return ('cmp', _CMP_NEG[c[1]], c[2], c[3]), not pol
+    if isinstance(c, tuple) and c and c[0] == 'cmp' and c[1] in _INT_NEG and is_int_term(c[2]) and is_int_term(c[3]):
+        return mkcmp(_INT_NEG[c[1]], c[2], c[3]), not pol
     return c, pol
 
 
